@@ -30,10 +30,14 @@ pub struct Shape {
     pub fudge: u16,
     /// 0 = as configured, 1 = upper case, 2 = compressed against the question (key named `z.`)
     pub name_style: u8,
+    /// how the UNSIGNED message is encoded: 0 = by hickory's encoder, n > 0 = by hand in
+    /// `vupd::raw::equivalent_layouts()[n-1]` (UPDATE kinds; no compression / compressed against
+    /// the zone name / upper case / a record or an OPT in the additional section before the TSIG)
+    pub layout: u8,
 }
 
 impl Shape {
-    pub const DEFAULT: Shape = Shape { other_len: 0, error: 0, oid_differs: false, fudge: 300, name_style: 0 };
+    pub const DEFAULT: Shape = Shape { other_len: 0, error: 0, oid_differs: false, fudge: 300, name_style: 0, layout: 0 };
     /// The dimensions at a non-default value (goes into finding keys).
     pub fn dims(&self) -> String {
         let mut v = vec![];
@@ -54,6 +58,9 @@ impl Shape {
             2 => v.push("key-name-compressed"),
             _ => {}
         }
+        if self.layout != 0 {
+            v.push("hand-encoded-layout");
+        }
         if v.is_empty() {
             "default-shape".into()
         } else {
@@ -61,10 +68,11 @@ impl Shape {
         }
     }
     pub fn label(&self) -> String {
-        format!("other={} error={} oid={} fudge={} name={}", self.other_len, self.error, if self.oid_differs { "differs" } else { "same" }, self.fudge, ["plain", "upper", "compressed"][self.name_style as usize])
+        let lay = if self.layout == 0 { String::new() } else { format!(" layout={}", vupd::raw::equivalent_layouts()[self.layout as usize - 1].name) };
+        format!("other={} error={} oid={} fudge={} name={}{lay}", self.other_len, self.error, if self.oid_differs { "differs" } else { "same" }, self.fudge, ["plain", "upper", "compressed"][self.name_style as usize])
     }
     pub fn var(&self) -> Var {
-        Var { key_named_like_zone: self.name_style == 2, udp: false, big_zone: false }
+        Var { key_named_like_zone: self.name_style == 2, ..Var::DEFAULT }
     }
     fn other(&self) -> Vec<u8> {
         (0..self.other_len).map(|i| 0xa0 + i as u8).collect()
@@ -88,7 +96,7 @@ pub fn shapes(thorough: bool) -> Vec<Shape> {
                 for oid_differs in [false, true] {
                     for fudge in [0u16, 300, 65535] {
                         for name_style in [0u8, 1, 2] {
-                            v.push(Shape { other_len, error, oid_differs, fudge, name_style });
+                            v.push(Shape { other_len, error, oid_differs, fudge, name_style, layout: 0 });
                         }
                     }
                 }
@@ -107,10 +115,23 @@ pub fn shapes(thorough: bool) -> Vec<Shape> {
         v.push(Shape { name_style: 2, ..d.clone() });
         // the BADTIME shape of RFC 8945 5.2.3 and everything at once
         v.push(Shape { other_len: 6, error: 18, ..d.clone() });
-        v.push(Shape { other_len: 16, error: 18, oid_differs: true, fudge: 65535, name_style: 1 });
-        v.push(Shape { other_len: 1, error: 18, oid_differs: true, fudge: 0, name_style: 2 });
+        v.push(Shape { other_len: 16, error: 18, oid_differs: true, fudge: 65535, name_style: 1, layout: 0 });
+        v.push(Shape { other_len: 1, error: 18, oid_differs: true, fudge: 0, name_style: 2, layout: 0 });
+    }
+    // hand-encoded layouts of the unsigned message: each alone, and with the all-at-once TSIG shape
+    for layout in 1..=vupd::raw::equivalent_layouts().len() as u8 {
+        v.push(Shape { layout, ..d.clone() });
+        v.push(Shape { other_len: 16, error: 18, oid_differs: true, fudge: 65535, name_style: 1, layout });
     }
     v
+}
+
+/// The unsigned request of `kind` in the shape's layout.
+pub fn unsigned_in_layout(kind: Kind, shape: &Shape) -> Vec<u8> {
+    match (shape.layout, kind_msg(kind)) {
+        (n, Some(m)) if n > 0 => vupd::raw::encode_update(0x1234, &m, &vupd::raw::equivalent_layouts()[n as usize - 1]),
+        _ => unsigned_message(kind).to_vec().expect("encode"),
+    }
 }
 
 /// Replace the (spelled out) owner name of the trailing TSIG RR by a pointer to the question name.
@@ -130,7 +151,7 @@ fn ref_key(alg: Alg) -> Key {
 
 /// The request of `kind`, signed by the reference signer in `shape`.
 pub fn ref_request(kind: Kind, alg: Alg, shape: &Shape) -> Vec<u8> {
-    let unsigned = unsigned_message(kind).to_vec().expect("encode");
+    let unsigned = unsigned_in_layout(kind, shape);
     let id = u16::from_be_bytes([unsigned[0], unsigned[1]]);
     let signed = rt::sign_shaped(&unsigned, &ref_key(alg), &shape.rr(alg, id), None, false);
     if shape.name_style == 2 {
@@ -163,7 +184,7 @@ fn hickory_stub(alg: Alg, shape: &Shape, id: u16) -> TSIG {
 
 fn shape_json(kind: Kind, alg: Alg, shape: &Shape, what: &str, bytes: &[u8]) -> Value {
     json!({"shape_family": what, "kind": kind.name(), "alg": alg_name(alg), "shape": shape.label(), "shape_other_len": shape.other_len, "shape_error": shape.error,
-           "shape_oid_differs": shape.oid_differs, "shape_fudge": shape.fudge, "shape_name_style": shape.name_style, "bytes_hex": hex::enc(bytes)})
+           "shape_oid_differs": shape.oid_differs, "shape_fudge": shape.fudge, "shape_name_style": shape.name_style, "shape_layout": shape.layout, "bytes_hex": hex::enc(bytes)})
 }
 
 pub fn shape_from_json(v: &Value) -> Shape {
@@ -173,6 +194,7 @@ pub fn shape_from_json(v: &Value) -> Shape {
         oid_differs: v["shape_oid_differs"].as_bool().unwrap_or(false),
         fudge: v["shape_fudge"].as_u64().unwrap_or(300) as u16,
         name_style: v["shape_name_style"].as_u64().unwrap_or(0) as u8,
+        layout: v["shape_layout"].as_u64().unwrap_or(0) as u8,
     }
 }
 
@@ -187,7 +209,7 @@ pub fn run_shape(w: &mut Worker, kind: Kind, alg: Alg, shape: &Shape, l: &mut Lo
     let hsigner = vupd::signer(k1_name(), vupd::KEY1, alg_h(alg), shape.fudge);
 
     // ---- (b) independent-MAC differential (hickory's signing API has original id = header id)
-    if !shape.oid_differs {
+    if !shape.oid_differs && shape.layout == 0 {
         let rr = shape.rr(alg, id);
         let stub = hickory_stub(alg, shape, id);
         let kname = vupd::hname(&if shape.name_style == 1 { k1_name().to_uppercase() } else { k1_name().to_string() });
@@ -251,6 +273,12 @@ pub fn run_shape(w: &mut Worker, kind: Kind, alg: Alg, shape: &Shape, l: &mut Lo
                 l.outcome("shape:reference-signed-request-takes-effect");
             }
         }
+    }
+
+    if shape.layout != 0 {
+        // a hand-encoded layout only changes the unsigned request: the rest is the layout-0 family
+        set_var(Var::DEFAULT);
+        return;
     }
 
     // ---- the same shape signed through hickory's OWN signing functions (TSIG::new + message_tbs +
